@@ -149,10 +149,23 @@ def search(ctx):
             c0 = np.ravel(sc.center)
             x, y = c0[0] + rng.uniform(-1.0, 1.0, size=m), c0[1] + rng.uniform(-1.0, 1.0, size=m)
             mk = lambda: Lens(0.8, Mie(False, False), quad_npts_theta=80, quad_npts_phi=80)
+        if kind in (2, 3, 4) and i % 3 == 0:
+            # the lens wrapper around a theory whose scattering matrix depends on the azimuth (cluster, tilted spheroid/cylinder):
+            # compact particle near the axis, detector points close to it, fine quadrature (the property speaks of the converged one)
+            if kind == 2:
+                c0 = np.array([float(rng.uniform(0, 1)), float(rng.uniform(0, 1)), float(rng.uniform(3, 6))])
+                d = rng.normal(size=3); d = 0.45 * d / np.linalg.norm(d)
+                sc = Spheres([Sphere(n=1.55, r=0.3, center=tuple(c0 + d)), Sphere(n=1.6, r=0.25, center=tuple(c0 - d))], warn=False)
+                name, mk = "Lens(Multisphere)", (lambda: Lens(0.7, Multisphere(), quad_npts_theta=60, quad_npts_phi=70))
+            else:
+                name, mk = "Lens(Tmatrix)", (lambda: Lens(0.7, Tmatrix(), quad_npts_theta=50, quad_npts_phi=60))
+                c0 = np.ravel(sc.center)
+            islens = True
+            x, y = c0[0] + rng.uniform(-1.0, 1.0, size=m), c0[1] + rng.uniform(-1.0, 1.0, size=m)
         det = detector_points(x=x, y=y, z=0.0)
         pol0 = (1.0, 0.0) if name == "Tmatrix" else T.rand_pol(rng)
         info = dict(theory=name, scatterer=repr(sc), pol=list(pol0), points=[x.tolist(), y.tolist()])
-        tol = {"Lens(Mie)": 2e-5, "MieLens": 1e-9, "AberratedMieLens": 1e-9, "Multisphere": 1e-7, "Tmatrix": 1e-6}.get(name, 1e-11)
+        tol = {"Lens(Mie)": 2e-5, "Lens(Multisphere)": 1e-4, "Lens(Tmatrix)": 1e-4, "MieLens": 1e-9, "AberratedMieLens": 1e-9, "Multisphere": 1e-7, "Tmatrix": 1e-6}.get(name, 1e-11)
         try:
             th = mk()
             h0 = calc_holo(det, sc, illum_polarization=pol0, theory=th, **OPT).values
